@@ -63,6 +63,16 @@ CHECKS = {
             "Shadowing (random by design) is off; antenna pattern constants are those of 3GPP 25.996 (70 deg/20 dB/14 dBi, 35 deg/23 dB/17 dBi).",
             "reference-model (fresh object) comparison + relation monitors over generated setter/query histories",
             "DESIGN.md §5 C13"),
+    "C09": ("exploration",
+            "icontract postconditions on the real block_diagonalize, block_diagonalize_no_waterfilling, calc_receive_filter and the "
+            "WhiteningBD / EnhancedBD entry points decide every call made by a workload that re-uses one object for several "
+            "precodings (power/noise reassigned, channel array overwritten in place), with per-user large-scale gains spread over up "
+            "to 100 dB, all five stream-reduction metrics and every admissible stream count: newH = H Ms, inter-user leakage, "
+            "per-transmitter power (<= Pu, max = Pu, all = Pu without water-filling), receive filter = inverse on every powered "
+            "stream, stream counts vs shapes, exact per-user power and complete removal of external interference (fixed metric).",
+            "Leakage tolerance is absolute in ||H||_2 (256 eps n ||H|| ||Ms_k||); a stream is 'powered' when its effective gain exceeds 1e-10 of the largest; optimality of the stream count chosen by capacity/throughput metrics is not part of the property and not asserted.",
+            "icontract postconditions on the real precoder methods under generated multi-round workloads",
+            "DESIGN.md §5 C09"),
 }
 
 PENDING_REASON = "check not built yet in this session (design in DESIGN.md §5); will be claimed once its monitors run clean on the unchanged tree"
